@@ -1741,8 +1741,8 @@ int bufr_value_nbits(int64_t val)
       {
       for ( i = 1 ; i <= 64 ; i++ )
          {
-         bmaxval[i] = (1ULL<<i)-1L;
-         bnegval[i] = 1ULL<<i;
+         bmaxval[i] = (i < 64) ? (1ULL<<i)-1L : ~0ULL;
+         if (i < 64) bnegval[i] = 1ULL<<i;
          }
       }
 
